@@ -227,6 +227,7 @@ class Model:
         if k == "detrend":
             kw = dict(op.get("kw", {}))
             kw.setdefault("axis", 0)
+            kw.pop("overwrite_data", None)  # same numbers either way; the model never works in place
             if "bp" in kw:
                 kw["bp"] = list(kw["bp"]) if isinstance(kw["bp"], (list, tuple)) else kw["bp"]
                 if op.get("bp_as") == "int":
@@ -423,6 +424,17 @@ def gen_swarm(rng, tier="quick"):
     return sw
 
 
+def _overwrite_allowed(ops, sig):
+    ok = False
+    for op, sg in zip(ops, sig):
+        k, out = (sg.split(":") + [""])[:2]
+        if k == "add":
+            ok = False
+        elif k in ("rollback", "decimate", "detrend", "filter") and out == "ok":
+            ok = True
+    return ok and len(ops) == len(sig)
+
+
 def gen_op(rng, m: Model, swarm, nalg, prev=(), step=0):
     ks = [k for k in OPKINDS if swarm["w"][k] > 0]
     k = rng.choices(ks, weights=[swarm["w"][x] for x in ks])[0]
@@ -432,6 +444,10 @@ def gen_op(rng, m: Model, swarm, nalg, prev=(), step=0):
         if tok.startswith("repeat:"):
             op = copy.deepcopy(prev[int(tok[7:])])
             op.pop("fault", None)
+            if (not swarm.get("_ow_ok") or "bp" in op.get("kw", {})) and "overwrite_data" in op.get("kw", {}):
+                op["kw"].pop("overwrite_data")
+                if not op["kw"]:
+                    op.pop("kw")
             return op
         k = tok[6:] if tok.startswith("fresh:") else tok
     nmin = min(d.shape[0] for d in m.ds)
@@ -455,11 +471,19 @@ def gen_op(rng, m: Model, swarm, nalg, prev=(), step=0):
             kw["type"] = rng.choice(["linear", "constant"])
         if rng.random() < 0.08:
             kw["axis"] = 0
+        may_fail = False
         if rng.random() < 0.25 and nmin > 8:
             if rng.random() < 0.08:
                 kw["bp"] = [nmin + rng.randint(1, 50)]  # out of range: scipy raises
+                may_fail = True
             else:
                 kw["bp"] = sorted(rng.sample(range(2, nmin - 2), rng.randint(1, 2)))
+        if swarm.get("_ow_ok") and not may_fail and rng.random() < 0.3:
+            # a documented scipy keyword. Only generated where in-place work can legitimately touch nothing but the
+            # working data: the working arrays are the library's own (an operation or a rollback succeeded since
+            # construction), no algorithm has been handed them since, and the call is not made to fail (a call that
+            # fails half-way through work the user asked to be done in place has no "before" to go back to)
+            kw["overwrite_data"] = True
         if kw:
             op["kw"] = kw
     elif k == "filter":
@@ -506,7 +530,8 @@ def gen_op(rng, m: Model, swarm, nalg, prev=(), step=0):
         op["bp_as"] = rng.choice(["nparray", "int"])
         if op["bp_as"] == "int":
             op["kw"]["bp"] = op["kw"]["bp"][:1]
-    if swarm["faulty"] and k in ("decimate", "detrend", "filter") and rng.random() < swarm["pfault"]:
+    if (swarm["faulty"] and k in ("decimate", "detrend", "filter") and rng.random() < swarm["pfault"]
+            and not op.get("kw", {}).get("overwrite_data")):
         op["fault"] = {
             "kind": "sci_exc",
             "call": rng.randrange(len(m.ds)),
@@ -637,6 +662,8 @@ def run_case(seed, tier="quick", case=None, known=()):
         step += 1
         if stop:
             break
+        if ops_in is None:
+            swarm["_ow_ok"] = _overwrite_allowed(res["ops"], res["sig"])
         op = copy.deepcopy(ops_in[step]) if ops_in is not None else gen_op(rng, m, swarm, nalg, res["ops"], step)
         if ops_in is None and step == nops - 1 and "fault" in op and not extended:
             nops += 1  # bounded liveness: one more operation after the last fault must match the model again
@@ -717,6 +744,16 @@ def run_case(seed, tier="quick", case=None, known=()):
                 r_exc = e
             fired = list(plan.fired)
             obs = observe(setup, m.kind)
+            if op.get("kw", {}).get("overwrite_data") and (fired or m_exc is not None or r_exc is not None):
+                # a call the user asked to work in place failed half-way: there is no "before" to compare with and the
+                # property promises none - the history ends here, unjudged (the generator avoids such calls; replays
+                # and minimiser candidates may still contain them)
+                inc("probe.inplace_call_failed_unjudged")
+                res["sig"].append(f"{k}:inplace_failed")
+                res["states"].append(m.abstract())
+                log.add({"step": step, "op": op, "outcome": "inplace_failed"})
+                stop = True  # nothing after this point is judged, the final state included
+                break
             if fired:
                 inc("fault.fired.sci_exc")
                 if fired[0]["call"] > 0:
